@@ -286,3 +286,32 @@ pub fn sib_fixtures(ctx: &Ctx, set: u32) -> Vec<(Vec<u8>, u64)> {
     }
     out
 }
+
+/// A zero-filled buffer that is never touched unless the code under test reads it (calloc hands out
+/// untouched zero pages, so 4 GiB cost nothing as long as the length check comes first).
+pub struct ZeroBuf {
+    ptr: *mut u8,
+    len: usize,
+}
+
+impl ZeroBuf {
+    pub fn new(len: usize) -> Option<ZeroBuf> {
+        let layout = std::alloc::Layout::from_size_align(len, 4096).ok()?;
+        // SAFETY: layout has a non-zero size; a null return is handled.
+        let ptr = unsafe { std::alloc::alloc_zeroed(layout) };
+        if ptr.is_null() { None } else { Some(ZeroBuf { ptr, len }) }
+    }
+    pub fn get(&self, n: usize) -> &[u8] {
+        assert!(n <= self.len);
+        // SAFETY: ptr points to len zero-initialised bytes owned by self and never written.
+        unsafe { std::slice::from_raw_parts(self.ptr, n) }
+    }
+}
+
+impl Drop for ZeroBuf {
+    fn drop(&mut self) {
+        // SAFETY: allocated in new() with this very layout.
+        unsafe { std::alloc::dealloc(self.ptr, std::alloc::Layout::from_size_align(self.len, 4096).unwrap()) }
+    }
+}
+
